@@ -231,7 +231,7 @@ def event_to_sample(photon_number: int, max_count_per_mode: int, modes: int) -> 
     orbs = []
 
     for orb in orbits(photon_number):
-        if max(orb) <= max_count_per_mode:
+        if max(orb) <= max_count_per_mode and len(orb) <= modes:
             cards.append(orbit_cardinality(orb, modes))
             orbs.append(orb)
 
@@ -302,15 +302,18 @@ def orbit_cardinality(orbit: list, modes: int) -> Union[int, float]:
     Returns:
         int: number of samples in the orbit
     """
+    if modes < len(orbit):
+        return 0
+
     sample = orbit + [0] * (modes - len(orbit))
     counts = list(Counter(sample).values())
 
-    # factorials of numbers larger than 170 do not fit into a int,
-    # hence return float using the qarg `exact=True`
-    if modes > 170:
-        return factorial(modes, exact=True) / np.prod(factorial(counts, exact=True))
+    # exact integer arithmetic: the multinomial coefficient modes! / prod(counts!)
+    cardinality = factorial(modes, exact=True)
+    for c in counts:
+        cardinality //= factorial(c, exact=True)
 
-    return int(factorial(modes, exact=False) / np.prod(factorial(counts, exact=False)))
+    return int(cardinality)
 
 
 def event_cardinality(photon_number: int, max_count_per_mode: int, modes: int) -> int:
